@@ -13,6 +13,7 @@ import (
 	"math/rand"
 	"os"
 	"path/filepath"
+	"sort"
 	"strings"
 
 	"github.com/corestario/kyber"
@@ -25,9 +26,9 @@ import (
 )
 
 type secretStats struct {
-	Ops, Scenarios, Secrets, Haystacks, Searches, DealPairs, WrongPasswords, RoundPairs, NoncesSeen int
-	OutcomeHist                                                                                     map[string]int
-	Monitors, Notes, Samples                                                                        []string
+	Ops, Scenarios, Secrets, Haystacks, Searches, DealPairs, WrongPasswords, RoundPairs, NoncesSeen, SealedValues int
+	OutcomeHist                                                                                                   map[string]int
+	Monitors, Notes, Samples                                                                                      []string
 }
 
 type secretRun struct {
@@ -313,6 +314,29 @@ func (r *secretRun) scenario(outDir string, n, t int) {
 	dbDirs := make([]string, n)
 	for i, nd := range c.nodes {
 		dbDirs[i] = filepath.Join(nd.dir, "airgapped")
+	}
+	// (c0) what is sealed under the password (the long-term key pair, one keyring per round) is sealed with AES-GCM under ONE
+	// key per machine (one salt, one password): every stored value must have its own nonce (its first 12 bytes), otherwise
+	// two values share a keystream and a known plaintext (the public key, a broadcast public polynomial) opens the others
+	for i, nd := range c.nodes {
+		snap := nd.air.VerifDBSnapshot()
+		nonceOf := map[string]string{}
+		var names []string
+		for k := range snap {
+			names = append(names, k)
+		}
+		sort.Strings(names)
+		for _, k := range names {
+			v := snap[k]
+			if (k == "public_key" || k == "private_key" || strings.HasPrefix(k, "bls_keyring")) && len(v) >= 12 {
+				r.st.SealedValues++
+				nc := hex.EncodeToString(v[:12])
+				if prev, dup := nonceOf[nc]; dup {
+					r.mon(fmt.Sprintf("C04 at_rest_nonce: %s machine %d: the stored values %q and %q are sealed under the same key with the same nonce %s", tag, i, prev, k, nc))
+				}
+				nonceOf[nc] = k
+			}
+		}
 	}
 	c.close()
 	closed = true
